@@ -19,7 +19,7 @@ FN_NAMES = ["compute", "render", "fetch", "cache", "route", "handler", "store", 
 CLS_NAMES = ["Alpha", "Beta", "Gamma"]
 PARAMS = ["alpha", "beta", "gamma", "delta", "epsilon"]
 TYPES = ["int", "str", "float", "bool", "Optional[int]", "List[str]"]
-DEFAULTS = {"int": ["5", "-3"], "str": ["'why'", "'x y'"], "float": ["0.5", "2.0"], "bool": ["True", "False"],
+DEFAULTS = {"int": ["5", "-3"], "str": ["'why'", "'x y'", "'hello'", "'(x)'", "'a:b'", "'#no'", "'z'", "'%s'", "'a,b'", "'a -> b'"], "float": ["0.5", "2.0"], "bool": ["True", "False"],
             "Optional[int]": ["None", "7"], "List[str]": ["None"]}
 DESCS = ["the first thing", "how many of them", "what to call it", "a switch", "where to look"]
 STYLES = ["rest", "google", "numpydoc"]
@@ -106,6 +106,9 @@ def gen_def(rng, indent, name, first=None, depth=0, allow_nested=True):
     elif r < 0.32:
         lines.append(pad + '@register_%s("x", retries=3)' % name)
         feats.add("decorator:call-with-name")
+    elif r < 0.35:
+        lines.append(pad + '@edge("a->b")')
+        feats.add("decorator:call")
     # header
     def render(p, with_ann):
         s = p["name"]
@@ -130,7 +133,7 @@ def gen_def(rng, indent, name, first=None, depth=0, allow_nested=True):
     if any(p["default"] is not None for p in ps):
         feats.add("defaults")
     rt = ""
-    if ret and with_ann:
+    if ret and (with_ann or rng.random() < 0.2):
         if rng.random() < 0.05:
             rt = ' -> "Dict[str:int]"'
             feats.add("string-return-annotation")
@@ -338,23 +341,42 @@ def def_features(node, src_lines):
     first = node.body[0]
     # the header proper: from the def keyword to the line of the colon that closes the signature
     depth, hdr_end = 0, node.lineno
+    header_comment, arrows_in_strings, colon_seen = False, 0, False
     try:
         toks = tokenize.generate_tokens(io.StringIO("\n".join(src_lines[node.lineno - 1:first.lineno]) + "\n").readline)
         for t in toks:
-            if t.type == tokenize.OP and t.string in "([{":
+            if colon_seen:
+                # the rest of the colon's line: a trailing comment belongs to the header line
+                if t.type == tokenize.COMMENT and node.lineno + t.start[0] - 1 == hdr_end:
+                    header_comment = True
+                if t.type in (tokenize.NEWLINE, tokenize.NL):
+                    break
+                continue
+            if t.type == tokenize.COMMENT:
+                header_comment = True
+            elif t.type == tokenize.STRING and "->" in t.string:
+                arrows_in_strings += 1
+            elif t.type == tokenize.OP and t.string in "([{":
                 depth += 1
             elif t.type == tokenize.OP and t.string in ")]}":
                 depth -= 1
             elif t.type == tokenize.OP and t.string == ":" and depth == 0:
                 hdr_end = node.lineno + t.start[0] - 1
-                break
+                colon_seen = True
     except (tokenize.TokenError, IndentationError, SyntaxError):
         hdr_end = max(node.lineno, first.lineno - 1)
     if hdr_end - node.lineno >= 1:
         f.add("multiline-header")
-    hdr = "\n".join(src_lines[node.lineno - 1:hdr_end])
-    if "#" in hdr:
+    if header_comment:
         f.add("comment-after-header")
+    if arrows_in_strings:
+        # maybe_replace_function_args looks for the LAST "->" before the final colon; once the return annotation is gone (or was
+        # never there) that is the one inside the string default: the re-printed header is cut there
+        f.add("arrow-in-default")
+    if any("->" in ast.unparse(d) for d in node.decorator_list):
+        # same mechanism, but only when the argument list is re-printed: a def with parameters of its own
+        own = [x.arg for x in a.posonlyargs + a.args + a.kwonlyargs if x.arg not in ("self", "cls")]
+        f.add("arrow-in-decorator+params" if own or a.vararg or a.kwarg else "arrow-in-decorator")
     if is_doc(first):
         if "#" in src_lines[first.end_lineno - 1].split('"""')[-1]:
             f.add("comment-after-docstring")
@@ -367,7 +389,7 @@ def def_features(node, src_lines):
     return f
 
 
-KEEP = ("async", "defaults", "vararg", "kwonly", "kwarg", "decorator:call-with-name", "decorator:call", "decorator:plain",
+KEEP = ("arrow-in-default", "arrow-in-decorator", "arrow-in-decorator+params", "async", "defaults", "vararg", "kwonly", "kwarg", "decorator:call-with-name", "decorator:call", "decorator:plain",
         "multiline-header", "comment-after-header", "comment-after-docstring", "string-return-annotation", "class", "no-docstring")
 
 
@@ -481,7 +503,7 @@ def run_case(c):
     # a comment on a def header line or after a closing docstring derails the CST scanner for the rest of the file (known finding):
     # every problem of such a module is attributed to that trigger
     allf = set().union(*feats.values()) if feats else set()
-    taint = next((t for t in ("comment-after-docstring", "comment-after-header") if t in allf), None)
+    taint = next((t for t in ("comment-after-docstring", "comment-after-header", "arrow-in-default", "arrow-in-decorator+params") if t in allf), None)
 
     def blame(lo, hi):
         """features of the input defs owning / enclosing input lines lo..hi (1-based, inclusive)"""
